@@ -32,7 +32,8 @@ def plan(tier):
             "min_nontrivial": 100,
             "min_counters": {"suffix_assertions": 3000, "prefix_instances_reclaimed": 5000,
                              "relations_compared": 5000, "suffix:stamp_append": 100 if tier == "quick" else 2000,
-                             "dead_copies_of_live_instances": 150 if tier == "quick" else 3000}}
+                             "dead_copies_of_live_instances": 150 if tier == "quick" else 3000,
+                             "idreuse_named_instances_on_a_dead_id": 40 if tier == "quick" else 800}}
 
 
 def setup(ctx):
@@ -59,7 +60,17 @@ def gen_survivor(rng):
             "sweep": rng.choice(["sweep", "sweep", "nosweep", "nogc"])}
 
 
+def gen_idreuse(rng):
+    """new instances that are given the ids of dead, unswept ones; the sweep comes when they exist already"""
+    k = rng.randint(2, 4)
+    return {"mode": "idreuse", "garbage": rng.randint(10, 60), "k": k,
+            "suffix": [[rng.choice(["part_of", "part_of", "sub_org_of", "members_none"]), rng.randrange(k), rng.randrange(k)] for _ in range(rng.randint(1, 5))],
+            "sweep": rng.choice(["late", "late", "query", "mid"])}
+
+
 def gen(rng, tier, ctx):
+    if rng.random() < 0.2:
+        return gen_idreuse(rng)
     if rng.random() < 0.3:
         return gen_survivor(rng)
     rounds = [rng.randint(1, 20) for _ in range(rng.randint(1, 3))]
@@ -467,10 +478,77 @@ def run_survivor(spec, om, with_history, C, problems):
     return rel, fields, errors, n_assert
 
 
+def _idreuse_garbage(om, n):
+    """n related organisations that die with this call; their ids"""
+    orgs = [om.Org(f"g{i}") for i in range(n)]
+    for a, b in zip(orgs, orgs[1:]):
+        a.part_of.append(b)
+    return {id(o) for o in orgs}
+
+
+def run_idreuse(spec, om, with_history, C):
+    from krrood.entity_query_language.symbol_graph import SymbolGraph
+    SymbolGraph().clear()
+    SymbolGraph()
+    dead_ids = set()
+    if with_history:
+        dead_ids = _idreuse_garbage(om, spec["garbage"])
+        gc.collect()                       # dead, but not swept: their nodes and index entries are still there
+    candidates = [om.Org(f"c{i}") for i in range(spec["k"] if not with_history else spec["k"] + 40)]
+    # the named instances: first the ones that were given the id of a dead instance
+    candidates.sort(key=lambda o: id(o) not in dead_ids)
+    chosen = candidates[:spec["k"]]
+    C["idreuse_named_instances_on_a_dead_id"] += sum(id(o) in dead_ids for o in chosen)
+    named = {}
+    for i, o in enumerate(chosen):
+        o.name = f"o{i}"
+        named[f"o{i}"] = o
+    del candidates, chosen, o
+    gc.collect()
+    orgs = [named[f"o{i}"] for i in range(spec["k"])]
+    errors, n_assert = [], 0
+    if with_history and spec["sweep"] == "late":
+        SymbolGraph().remove_dead_instances()
+    elif with_history and spec["sweep"] == "query":
+        census(om, named, C)
+    for n, (kind, i, j) in enumerate(spec["suffix"]):
+        if with_history and spec["sweep"] == "mid" and n == (len(spec["suffix"]) + 1) // 2:
+            SymbolGraph().remove_dead_instances()
+        try:
+            if kind == "members_none":
+                len(orgs[i].members)
+            else:
+                getattr(orgs[i], kind).append(orgs[j])
+                n_assert += 1
+        except Exception as e:
+            errors.append(f"{kind}: {type(e).__name__}: {e}"[:160])
+    rel, fields = observe(om, named, SymbolGraph())
+    fields |= {("census",) + t for t in census(om, named, C)}
+    return rel, fields, errors, n_assert
+
+
 def run(spec, ctx):
     om = ctx["om"]
     C = ctx["counters"]
     problems = []
+    if spec.get("mode") == "idreuse":
+        relA, fieldsA, errA, nA = run_idreuse(spec, om, False, C)
+        relB, fieldsB, errB, nB = run_idreuse(spec, om, True, C)
+        C["suffix_assertions"] += nA
+        C["relations_compared"] += len(relA)
+        C["idreuse_cases"] += 1
+        relB = {t for t in relB if "<foreign>" not in t}
+        fieldsB = {t for t in fieldsB if "<foreign>" not in t}
+        if errA != errB:
+            problems.append(f"assertions raise differently: fresh {errA[:2]} vs after-history {errB[:2]}")
+        if relA != relB:
+            problems.append(f"graph relations differ: only on fresh graph {sorted(relA - relB)[:4]}, only after history {sorted(relB - relA)[:4]}")
+        if fieldsA != fieldsB:
+            problems.append(f"field values differ: only on fresh graph {sorted(fieldsA - fieldsB)[:4]}, only after history {sorted(fieldsB - fieldsA)[:4]}")
+        if problems:
+            return {"status": "fail", "kind": "history-dependent", "key": "dead-node-leaves-index-entries", "detail": "; ".join(problems[:3])}
+        return {"status": "ok", "nontrivial": nA > 0, "shape": f"idreuse|{spec['garbage']}|{spec['k']}|{[x[0] for x in spec['suffix']]}|{spec['sweep']}",
+                "obs": {"relations": len(relA)}}
     if spec.get("mode") == "survivor":
         relA, fieldsA, errA, nA = run_survivor(spec, om, False, C, problems)
         relB, fieldsB, errB, nB = run_survivor(spec, om, True, C, problems)
